@@ -238,8 +238,15 @@ def benign_ctor(rng, w):
 
 # ---------------------------------------------------------------------- worker jobs
 def work(args):
+    try:
+        return _work(args)
+    except HarnessError:
+        return _work(args)   # one retry: a child killed by an overloaded machine's timeout is not a property of the tree
+
+
+def _work(args):
     import faulthandler
-    faulthandler.dump_traceback_later(1200, exit=True)
+    faulthandler.dump_traceback_later(2400, exit=True)
     seed = args["hash_seed"]
     if args["kind"] == "pipelines":
         res = ZP.submit(seed, {"kind": "pipeline_batch", "pipelines": args["pipelines"]}, timeout=300)["results"]
